@@ -369,6 +369,11 @@ def check_E3(ctx, facts):
                     continue
                 got = sorted(bnds.get('piece%d' % piece_of[fld], set()))
                 okb = got == [want]
+                # a reader that parses the piece into an integer type whose largest value IS the bound needs no comparison
+                rty = by_piece.get(piece_of[fld], (None, None, None))[2]
+                if not got and rty in bits.INT_W and (1 << bits.INT_W[rty]) - 1 == want:
+                    okb = True
+                    got = [want]
                 ctx.ob('C10.E3', 'reader-range|' + fld, okb, site(fs),
                        'the reader accepts %s up to %d, the largest value the packer produces' % (fld, want) if okb else
                        'the reader accepts %s up to %s, but the largest value the packer can produce is %d: a text with a larger field is accepted and denotes a '
@@ -391,7 +396,9 @@ def check_E3(ctx, facts):
     for i, (w, r) in enumerate(zip(writer, reader)):
         wbits = bits.INT_W.get(w['ty'] or '', 0)
         rbits = bits.INT_W.get(r['ty'] or '', 0)
-        good = w['field'] is not None and w['field'] == r['field'] and w['radix'] == r['radix'] and rbits >= wbits > 0
+        # the reader's integer type must hold every value of the FIELD (32 | 8 | 16 | 8 bits); the writer may print it from a wider type
+        fbits = {'seconds': 32, 'fractional': 8, 'counter': 16, 'node': 8}.get(w['field'] or '', wbits)
+        good = w['field'] is not None and w['field'] == r['field'] and w['radix'] == r['radix'] and rbits >= min(wbits, fbits) > 0
         ctx.ob('C10.E3', 'field#%d' % i, good, site(fs, r['line']),
                'position %d: writer %s radix %s %s  /  reader %s radix %s %s%s' % (
                    i, w['field'], w['radix'], w['ty'], r['field'], r['radix'], r['ty'],
@@ -438,8 +445,20 @@ def check_E4(ctx, facts):
         parse = [(b, t) for b, t in calls if cname(t) == 'core::str::traits::FromStr::from_str']
         key = rb.name.replace('datacake_sqlite::', '')
         if not parse:
-            ctx.bad('C10.E4', key + '|parse', site(rb), 'row decoder does not parse the timestamp through FromStr (unrecognised idiom, fail closed)')
-            continue
+            # the parse may sit in a helper of the crate (a column-codec trait, a shared decode function), called as `str::parse` or through FromStr
+            deep = []
+            for hb in cg.reach([rb], bound=4):
+                if hb.crate != 'datacake_sqlite' or hb is rb:
+                    continue
+                for b_, t_ in hb.calls():
+                    n_ = cname(t_) or ''
+                    if n_ == 'core::str::traits::FromStr::from_str' or (n_ == 'core::str::<impl str>::parse' and any('HLCTimestamp' in g for g in (t_.get('gargs') or []))):
+                        deep.append((hb, t_))
+            if not deep:
+                ctx.bad('C10.E4', key + '|parse', site(rb), 'row decoder does not parse the timestamp through FromStr (unrecognised idiom, fail closed)')
+                continue
+            ctx.ok('C10.E4', key + '|parse-in-helper', site(deep[0][0], deep[0][1]['cs']),
+                   'the timestamp is parsed in %s; a panicking use of its result would show among the may-panic sites reachable from the row decoder' % last_seg(deep[0][0].name))
         for pb, pt in parse:
             fw = flow.forward([pt['dest']['l']], stop=[0])
             unw = [cname(t) for b, t in calls if cname(t) in tables.MAY_PANIC and t['args'] and op_local(t['args'][0]) in fw]
